@@ -63,5 +63,13 @@ CHECKS += [
          technique="stateful property-based testing in the cluster simulation with a history oracle over the coordination-key log"),
 ]
 
+CHECKS += [
+    dict(property_id="C05", category="exploration",
+         text="Generated histories of configuration, maintenance, pending requests, master conditions (dead, isolated from the manager only, health record missing, read-only filesystem, crash-recovered, flapping), replica states, stale active lists, injected last-switch records and manager changes are run through the real manager loop; at every creation of an automatic request the oracle re-evaluates every gate of the statement from the coordination tree as of the filing instant, the servers' reachability/ground truth and the per-process history of master-record evaluations (bad evaluations recorded liberally, good ones conservatively, so a racing change cannot cause an alarm); the converse clause is checked on iterations that cannot reach a master whose own record is good. The evidence carries the histogram of 'only this gate closed' per gate.",
+         design_ref="DESIGN.md section 4, C05",
+         note="Trusted: as C02; iterations whose observed keys were changed by somebody else while they ran are skipped (counted).",
+         technique="stateful property-based testing in the cluster simulation with an observation-based decision oracle"),
+]
+
 _claimed = {c["property_id"] for c in CHECKS}
 NOT_APPLICABLE = [dict(property_id=p, reason="check not built yet in this revision (framework under construction; see DESIGN.md build order)") for p in ALL if p not in _claimed]
